@@ -8,6 +8,7 @@ CONSTANTS
   TYPES = {"d3"}
   USIZE = 8
   PROP = "C11"
+  APPLYS = {0, 1, 2, 3, 4, 5}
 SPECIFICATION Spec
 VIEW View
 INVARIANTS C11 BufInv
